@@ -35,6 +35,14 @@ def is_empty_fact(f, key):
     if f[0] == "Eq":
         a, b = norm_len(f[1]), norm_len(f[2])
         return {a, b} == {("len", p), ("const", "0")}
+    # slice patterns (`if let [first, ..] = bytes`) compare the length with 1
+    if f[0] in ("Lt", "Le", "Gt", "Ge"):
+        op, a, b = f[0], norm_len(f[1]), norm_len(f[2])
+        if op in ("Gt", "Ge"):
+            op = {"Gt": "Lt", "Ge": "Le"}[op]
+            a, b = b, a
+        if a == ("len", p) and b[0] == "const" and b[1].isdigit():
+            return (op == "Lt" and int(b[1]) == 1) or (op == "Le" and int(b[1]) == 0)
     return False
 
 
@@ -53,6 +61,11 @@ def nonempty_fact(f, key):
             return a == ("const", "0") and b == ("len", p)
         if f[0] == "Gt":
             return b == ("const", "0") and a == ("len", p)
+    if f[0] in ("Ge", "Le"):
+        a, b = norm_len(f[1]), norm_len(f[2])
+        if f[0] == "Le":
+            a, b = b, a
+        return a == ("len", p) and b[0] == "const" and b[1].isdigit() and int(b[1]) >= 1
     return False
 
 
@@ -93,8 +106,14 @@ def r_literal_guard(F, R):
         fs = facts_at(ctx, bi)
         if any(is_empty_fact(f, b.key) or unassigned_fact(f, b.key) for f in fs):
             good.add(bi)
+    from expr import edge_facts, reachable_avoiding
+    good_edges = set()
+    for s_ in b.live_blocks():
+        for (tgt, fs) in edge_facts(ctx, s_):
+            if any(is_empty_fact(f, b.key) or unassigned_fact(f, b.key) for f in fs):
+                good_edges.add((s_, tgt))
     for (bi, t) in lits:
-        reach = b.reachable(0, good)
+        reach = reachable_avoiding(b, 0, good, good_edges)
         ok = bi not in reach
         # the "assigned" edge of the lookup must diverge: no path from the lookup's other edge to the store
         R.check("R-GUARD", b.label(), ok,
@@ -314,8 +333,18 @@ def loop_header(b, bi):
     after = reach_strict(b, bi)
     dom = b.dominators()
     live = b.live_blocks()
-    cands = [h for h in dom.get(bi, ()) if h in after and
-             any(h in b.succs(x) and h in dom.get(x, ()) for x in live)]  # target of a back edge
+
+    def in_natural_loop(h):
+        # bi reaches a back-edge source of h without passing through h itself (an inner loop that
+        # merely precedes bi in every iteration is not a loop *around* bi)
+        srcs = [x for x in live if h in b.succs(x) and h in dom.get(x, ())]
+        if not srcs:
+            return False
+        if bi in srcs:
+            return True
+        reach = b.reachable(bi, {h})
+        return any(x in reach for x in srcs)
+    cands = [h for h in dom.get(bi, ()) if h in after and in_natural_loop(h)]
     if not cands:
         return None
     return max(cands, key=lambda h: len(dom.get(h, ())))
